@@ -21,7 +21,13 @@ import (
 	"arkverif/sim"
 )
 
-const verifDir = "/verif"
+// verifDir is the root of the verification tree (VERIF_ROOT, default /verif).
+var verifDir = func() string {
+	if v := os.Getenv("VERIF_ROOT"); v != "" {
+		return v
+	}
+	return "/verif"
+}()
 
 func main() {
 	if len(os.Args) < 2 {
